@@ -52,7 +52,7 @@ def run(rep, prop, tier):
             cases.append({"out": o, "start": "run", "plan": [None] * 12 + adopt.JSTEPS[o], "stopped": st, "want": None, "labels": None})
     if tier == "thorough":
         # every placement of the orphan's steps over the accesses the code makes (n = longest sequence of the model + 2)
-        n = max(len(c["labels"]) for c in cases) + 2
+        n = max(len(c["labels"]) for c in cases if c["labels"] is not None) + 2
         seen = {(c["out"], c["start"], json.dumps(c["plan"])) for c in cases}
         for o in ("ok", "fail", "killed"):
             for plan in adopt.placements(o, n):
